@@ -696,6 +696,18 @@ def fam_boot(case):
 
 
 # ---- folds: shared by crossval and the bootstrap-wrapped cross-validations ------------------------------------
+def _sides_disjoint(o, sides, cv_r, cv_p, where):
+    """"fitted on that fold's training set only": along every cross-validated factor the library's own fold generator must
+    keep the test groups out of the training side (stated independently of the generator's output)"""
+    for f, s in enumerate(sides):
+        if cv_p and set(s['L_te']) & set(s['L_tr']):
+            o.add('fitter-view', f'{where} fold {f}: condition groups {sorted(set(s["L_te"]) & set(s["L_tr"]), key=str)} are in the '
+                                 f'test fold AND in the training side the fitter sees')
+        if cv_r and set(s['R_te']) & set(s['R_tr']):
+            o.add('fitter-view', f'{where} fold {f}: RDMs {sorted(set(s["R_te"]) & set(s["R_tr"]))} are in the test fold AND in '
+                                 f'the training side the fitter sees')
+
+
 def _fold_sides(W, fold, rl, pl):
     """spec train / test / ceiling membership of a logged fold within the resample with drawn labels (rl, pl)"""
     out = dict(R_te=_members(W.rlab, [g for g in rl if g in fold['te_rg']]),
@@ -886,6 +898,7 @@ def fam_bootcv(case):
             if not _expect_kfold_call(W, o, fl, R, C, k_pattern, k_rdm, where):
                 continue
             sides = [_fold_sides(W, f, rl, pl) for f in fl['folds']]
+            _sides_disjoint(o, sides, k_rdm > 1, k_pattern > 1, where)
             exp[i, :, :, c] = _eval_folds(W, o, sides, fit_desc, log.fits, cursor, where)
             exp_nc[:, i, c] = W.cv_nc(R, C, sides) if (k_rdm > 1 or k_pattern > 1) else W.boot_nc(R, C)
     if fc != len(log.folds):
@@ -954,6 +967,7 @@ def fam_dual(case):
                 if not _expect_kfold_call(W, o, fl, R, C, k_pattern, k_rdm, where):
                     continue
                 sides = [_fold_sides(W, f, rl, pl) for f in fl['folds']]
+                _sides_disjoint(o, sides, k_rdm > 1, k_pattern > 1, where)
                 exp[i, :, :, c, slot] = _eval_folds(W, o, sides, fit_desc, log.fits, cursor, where)
                 exp_nc[:, i, c, slot] = W.cv_nc(R, C, sides) if (k_rdm > 1 or k_pattern > 1) else W.boot_nc(R, C)
     if fc != len(log.folds):
@@ -1018,6 +1032,7 @@ def fam_dual_random(case):
                                  f'{sorted(fl["src"][1])}; expected {n_cv} folds of RDMs {sorted(R)} x conditions {sorted(C)}')
             continue
         sides = [_fold_sides(W, f, rl, pl) for f in fl['folds']]
+        _sides_disjoint(o, sides, n_rdm > 0, n_pattern > 0, where)
         exp[i, :, 0, :] = _eval_folds(W, o, sides, fit_desc, log.fits, cursor, where)
         exp_nc[:, i, :] = np.array(W.cv_nc(R, C, sides) if (n_rdm > 0 or n_pattern > 0) else W.boot_nc(R, C))[:, None]
     if fc != len(log.folds):
@@ -1270,4 +1285,122 @@ def tier_c(run, thorough):
     _run_family(run, 'eval_dual_bootstrap_random', 'eval_dual_bootstrap_random boot_type both/pattern/rdm; N=%d; test sets of 0, 2, 3, 4 '
                 'condition units and 0..2 RDM units; n_cv 2 (corrected / not) / 3 / 1; 3x5, 5x7 (grouped), 4x9, 6x10 (grouped) data; fitter None / '
                 'callable / list; methods cosine, corr, rho-a; %d data seeds' % (N, len(seeds)), cases, bds, H)
+    tier_c_cross_process(run, thorough, bds)
     return bds
+
+
+# ---- reproducibility across interpreter processes (string descriptors, different hash salts) -----------------------------
+XPROC_ROUTINES = ('eval_fixed', 'eval_bootstrap', 'eval_bootstrap_rdm', 'eval_bootstrap_pattern', 'crossval',
+                  'bootstrap_crossval', 'eval_dual_bootstrap')
+
+
+def _xproc_child():
+    """child process: every routine once on string-labelled data under a fixed numpy seed; prints {routine: digest}"""
+    import hashlib
+    import json
+    import sys
+    import warnings
+    warnings.simplefilter('ignore')
+    case = json.loads(sys.argv[1])
+    import rsatoolbox.inference as inf
+    from rsatoolbox.rdm import RDMs
+    from rsatoolbox.model import ModelFixed, ModelWeighted
+    rs = np.random.RandomState(case['seed'])
+    n_rdm, n_cond = case['n_rdm'], case['n_cond']
+    npair = n_cond * (n_cond - 1) // 2
+    rlab = [case['rnames'][i % len(case['rnames'])] for i in range(n_rdm)]
+    plab = [case['pnames'][i % len(case['pnames'])] for i in range(n_cond)]
+    data = RDMs(rs.rand(n_rdm, npair) + 0.1, rdm_descriptors={'subj': rlab}, pattern_descriptors={'stim': plab})
+    basis = RDMs(rs.rand(2, npair) + 0.1, pattern_descriptors={'stim': plab})
+    models = [ModelFixed('f', rs.rand(npair) + 0.1), ModelWeighted('w', basis)]
+    kw = dict(rdm_descriptor='subj', pattern_descriptor='stim')
+    calls = {
+        'eval_fixed': lambda: inf.eval_fixed(models, data, method='corr'),
+        'eval_bootstrap': lambda: inf.eval_bootstrap(models[0], data, method='corr', N=6, **kw),
+        'eval_bootstrap_rdm': lambda: inf.eval_bootstrap_rdm(models[0], data, method='corr', N=6, rdm_descriptor='subj'),
+        'eval_bootstrap_pattern': lambda: inf.eval_bootstrap_pattern(models[0], data, method='corr', N=6, pattern_descriptor='stim'),
+        'crossval': lambda: inf.crossval(models, data, *inf.sets_k_fold(data, k_pattern=2, k_rdm=2, **kw)[:2], method='corr',
+                                         pattern_descriptor='stim'),
+        'bootstrap_crossval': lambda: inf.bootstrap_crossval(models, data, method='corr', k_pattern=2, k_rdm=2, N=4, n_cv=2, **kw),
+        'eval_dual_bootstrap': lambda: inf.eval_dual_bootstrap(models, data, method='corr', k_pattern=2, k_rdm=2, N=4, n_cv=2, **kw),
+    }
+    out = {}
+    for name in XPROC_ROUTINES:
+        np.random.seed(case['np_seed'])
+        try:
+            res = calls[name]()
+            h = hashlib.sha256()
+            for attr in ('evaluations', 'noise_ceiling', 'variances'):
+                v = getattr(res, attr)
+                h.update(b'None' if v is None else np.ascontiguousarray(np.asarray(v, dtype=float)).tobytes())
+            out[name] = h.hexdigest()[:16] + ' mean=%r' % float(np.nanmean(res.evaluations))
+        except Exception as e:                                       # noqa: BLE001
+            out[name] = f'EXC {type(e).__name__}: {str(e)[:80]}'
+    print('XPROC ' + json.dumps(out))
+
+
+_XPROC_CACHE = {}
+
+
+def _xproc_results(case):
+    """digests of all routines from child interpreters started with different PYTHONHASHSEED values"""
+    import json
+    import os
+    import subprocess
+    import sys
+    key = json.dumps({k: v for k, v in case.items() if k != 'routine'}, sort_keys=True)
+    if key in _XPROC_CACHE:
+        return _XPROC_CACHE[key]
+    procs = []
+    for hs in case['hash_seeds']:
+        env = dict(os.environ, PYTHONHASHSEED=str(hs), MPLBACKEND='Agg')
+        procs.append(subprocess.Popen([sys.executable, '-c', 'from contracts.C04_c import _xproc_child; _xproc_child()', key],
+                                      env=env, stdout=subprocess.PIPE, stderr=subprocess.PIPE, text=True,
+                                      cwd=os.path.dirname(os.path.dirname(os.path.abspath(__file__)))))
+    outs = []
+    for pr in procs:
+        so, se = pr.communicate(timeout=600)
+        line = [ln for ln in so.splitlines() if ln.startswith('XPROC ')]
+        outs.append(json.loads(line[-1][6:]) if line else {'__error__': (se or so)[-300:]})
+    _XPROC_CACHE[key] = outs
+    return outs
+
+
+@oracle('C04/cross-process')
+def orc_cross_process(case):
+    """a rerun with the same random seed reproduces the result exactly -- also in a NEW interpreter (descriptor groups given
+    as strings must not be enumerated in hash order)"""
+    outs = _xproc_results(case)
+    r = case['routine']
+    vals = []
+    for hs, o in zip(case['hash_seeds'], outs):
+        if '__error__' in o:
+            raise RuntimeError('child interpreter failed: ' + o['__error__'])
+        vals.append(o[r])
+    if any(v.startswith('EXC') for v in vals):
+        return None if len(set(vals)) == 1 else f'{r}: raises in some interpreters only: {vals}'
+    if len(set(vals)) != 1:
+        return (f'{r} with string descriptors and np.random.seed({case["np_seed"]}): results differ between interpreter '
+                f'processes started with PYTHONHASHSEED={case["hash_seeds"]}: {vals}')
+    return None
+
+
+def tier_c_cross_process(run, thorough, bds):
+    bd = Bounded(run, 'C04/cross-process', 'C04/all-routines/oracle/same-seed-reproduces-in-a-new-interpreter',
+                 'eval_fixed, eval_bootstrap(_rdm,_pattern), crossval on sets_k_fold, bootstrap_crossval, eval_dual_bootstrap on '
+                 '%d string-labelled data sets (grouped and ungrouped), each run in %d child interpreters with different '
+                 'PYTHONHASHSEED and the same numpy seed; results compared bit for bit' % ((3, 4) if thorough else (2, 3)),
+                 function='eval_*')
+    hs = [1, 2, 31337, 7][:4 if thorough else 3]
+    sets = [dict(seed=1, np_seed=5, n_rdm=6, n_cond=8, rnames=['anna', 'bert', 'carl', 'dora', 'emil', 'fay'],
+                 pnames=['face', 'house', 'cat', 'chair', 'shoe', 'bottle', 'tree', 'car']),
+            dict(seed=2, np_seed=11, n_rdm=6, n_cond=9, rnames=['s01', 's02', 's03'],
+                 pnames=['a', 'b', 'c', 'd', 'e', 'f', 'g', 'h', 'i'])]
+    if thorough:
+        sets.append(dict(seed=3, np_seed=17, n_rdm=5, n_cond=12, rnames=['x', 'y', 'zz', 'w', 'v'],
+                         pnames=['p%d' % i for i in range(6)]))
+    for st in sets:
+        for r in XPROC_ROUTINES:
+            bd.check(orc_cross_process, dict(st, hash_seeds=hs, routine=r), 'string-descriptors', function=r)
+    bd.done()
+    bds.append(bd)
